@@ -22,7 +22,7 @@ SESSION_CAP_S = 420
 
 QUICK_SESSIONS = {
     "default": 40,
-    "C17": 480,
+    "C17": 1600,
     "C19": 640,
     "C31": 320,
 }
@@ -225,7 +225,7 @@ def main_check(pid, tier, seed, workers, sessions=None, keep_going=False):
                 continue
             replay_paths.append(path)
             print("VIOLATION property=%s replay=%s" % (pid, path))
-            print("  oracle=%s class=%s step=%d replica=%d seed=%d session=%d" % (v["oracle"], v["class"], v["step"], v["replica"], r["seed"], r["j"]))
+            print("  oracle=%s class=%s step=%s replica=%s seed=%d session=%d" % (v["oracle"], v["class"], v["step"], v["replica"], r["seed"], r["j"]))
             print("  %s" % v["detail"][:400])
             exit_code = 1
     for line in kf_lines:
